@@ -21,7 +21,7 @@ if mt.exists():
         m = re.match(r'(\S+) check=\S+ exit=(\d+) (\w+)', line)
         if m:
             matrix[m.group(1)] = m.group(3)
-rounds = {'': 1, 'b': 2, 'c': 3, 'd': 4}
+rounds = {'': 1, 'b': 2, 'c': 3, 'd': 4, 'e': 5}
 n = len(metas)
 first_miss = sum(1 for m in metas if m['detection'].startswith(('missed', 'not reached')))
 
@@ -38,8 +38,8 @@ for m in metas:
 
 s114 = '''### 11.4 Seeded breaking changes (`/verif/seeded/<id>/`)
 
-%d changes to jedi in four rounds (`Cxx` = round 1, `Cxxb` = round 2, `Cxxc` = round 3, `Cxxd` = round 4; no `C15c` was
-kept) were written by independent sub-agents that saw only
+%d changes to jedi in five rounds (`Cxx` = round 1, `Cxxb` = round 2, `Cxxc` = round 3, `Cxxd` = round 4, `Cxxe` =
+round 5, which covered C07, C12, C13, C16, C17 and C18 only; no `C15c` was kept) were written by independent sub-agents that saw only
 the property record and a scratch worktree (never `/verif`; from round 2 on additionally one-line descriptions of the
 earlier changes for the same property, to be avoided). Each was asked for a plausible maintainer mistake that still
 passes the 264 pinned tests and needs something specific to manifest, with a demonstration script. All were confirmed
